@@ -706,6 +706,49 @@ func ruleC14Unbuffered(p *Prog, a *Anchors, r *Report) {
 					}
 					return false
 				})
+				if !nonEmpty {
+					// the test may stand where a helper that forwards is called: Write tests len(b), writeThrough(b) writes
+					for _, arg := range in.(*ssa.Call).Common().Args {
+						pa, isParam := arg.(*ssa.Parameter)
+						if !isParam {
+							continue
+						}
+						sites := paramActualSites(p, pa)
+						all := len(sites) > 0
+						for _, s := range sites {
+							act := s.val
+							if !Guarded(s.site, func(cond ssa.Value, pol bool) bool {
+								bo, ok := cond.(*ssa.BinOp)
+								if !ok {
+									return false
+								}
+								c, ok := bo.X.(*ssa.Call)
+								if !ok {
+									return false
+								}
+								bi, ok := c.Common().Value.(*ssa.Builtin)
+								if !ok || bi.Name() != "len" || c.Common().Args[0] != act {
+									return false
+								}
+								if k, isK := constInt(bo.Y); !isK || k != 0 {
+									return false
+								}
+								switch bo.Op {
+								case token.EQL:
+									return !pol
+								case token.NEQ, token.GTR:
+									return pol
+								}
+								return false
+							}) {
+								all = false
+							}
+						}
+						if all {
+							nonEmpty = true
+						}
+					}
+				}
 				if nonEmpty {
 					r.OK(key+":non-empty", p.InstrPos(in), "a write without bytes is not forwarded")
 				} else {
